@@ -610,10 +610,9 @@ def declaredLoud : List String := [
   "glue.core.roi.PointROI",                     -- inherits the refusing Roi saver
   "glue.core.subset.CompositeSubsetState",      -- op = None: never instantiated by glue
   "glue.core.component.DaskComponent",          -- no saver for dask arrays: GlueSerializeError
-  "glue.core.link_helpers.BaseMultiLink",       -- forwards/backwards are abstract
-  "glue.core.link_helpers.MultiLink",           -- __gluestate__ reads self._forwards: AttributeError
-  "glue.plugins.wcs_autolinking.wcs_autolinking.OffsetLink",   -- inherit MultiLink.__gluestate__
-  "glue.plugins.wcs_autolinking.wcs_autolinking.AffineLink"
+  "glue.core.link_helpers.BaseMultiLink"        -- forwards/backwards are abstract
+  -- (MultiLink / OffsetLink / AffineLink were listed here until the C12 repair F-C12d gave them working
+  --  pairs: they are now ordinary classes with their own saver and loader, validated by `cls`/`sess`)
 ]
 
 end GlueVerif.C02
